@@ -4,7 +4,7 @@ import os, json, glob, re
 HERE = os.path.dirname(os.path.dirname(os.path.abspath(__file__)))
 first = {}
 for p1 in (os.path.join(HERE, 'seeded', 'detect_pass1.log'), os.path.join(HERE, 'seeded', 'detect_pass1_round2.log'),
-           os.path.join(HERE, 'seeded', 'detect_pass1_round3.log'), os.path.join(HERE, 'seeded', 'detect_pass1_round4.log')):
+           os.path.join(HERE, 'seeded', 'detect_pass1_round3.log'), os.path.join(HERE, 'seeded', 'detect_pass1_round4.log'), os.path.join(HERE, 'seeded', 'detect_pass1_round5.log')):
     if os.path.exists(p1):
         for l in open(p1):
             m = re.match(r'(C\d\d-\d) (caught|MISSED)', l)
